@@ -33,6 +33,8 @@ func (Area) Exec(input string) string {
 		return fmt.Sprintf("1 %s %s", common.HexS(svc), common.HexS(m))
 	case "hist":
 		return c06.ExecHist(input)
+	case "e2e":
+		return execE2E(f)
 	case "stress":
 		// uncontrolled contested-claim stress of the C11 slice (real goroutines, no yield points): the earlier
 		// claimant must keep a contested service at EVERY instant, not only between operations
@@ -145,6 +147,76 @@ func (Area) Gen(r *rand.Rand, tier string, emit func(string)) {
 		default:
 			parse(string(common.RandBytes(r, r.Intn(10), nil)))
 		}
+	}
+
+	// end to end: real grpc client -> real GRPCProxy (UnknownServiceHandler) -> real target, names at the edge of the grammar
+	long := strings.Repeat("LongMethodName", 560) // 7840 bytes
+	longSvc := "p." + strings.Repeat("VeryLongService", 200)
+	hexList := func(l []string) string {
+		if len(l) == 0 {
+			return "-"
+		}
+		var hs []string
+		for _, x := range l {
+			hs = append(hs, common.HexS(x))
+		}
+		return strings.Join(hs, ",")
+	}
+	aSvcs := []string{"p.S1", "", "p%2ES1", "p.S1\xc3\xa9", "p.S1 x", longSvc, "p.S1?x=1", ".."}
+	bSvcs := []string{"p.S1", "q.T", "p.S2", "p.S1%20x", "p"}
+	e2eLine := func(name string, as, bs []string) {
+		emit(fmt.Sprintf("e2e %s %s %s", common.HexS(name), hexList(as), hexList(bs)))
+	}
+	e2eNames := []string{
+		"/p.S1/M1", "p.S1/M1", "/q.T/M", "q.T/M", "//M", "/M", "///", "//", "/", "", "/p.S1/", "/p.S1", "p.S1", "/p.S1/a/b/c", "/p.S1//M",
+		"/p.S2/M/", "/p%2ES1/M", "/p.S1/M%20x", "/p.S1%20x/M", "/p.S1 x/M y", "/p.S1\xc3\xa9/M\xc3\xa9", "/p.S%31/M1", "/p.S2%2FM",
+		"/p.S1?x=1/M?y=2", "/p.S1/M#frag", "/../..", "/./M", "/p/S1/M", "/nobody.S/M", "nobody", "/p.S1/" + long, "/" + longSvc + "/M",
+		"p.S1/" + long, "/q.T/%", "/q.T/%zz", "/Q.T/M", "/p.s1/M1", "/p.S1/M1/", "/ p.S1/M1", "/p.S1/ M1", "/p.S1/M1 ", "/p.S1./M",
+	}
+	for _, nm := range e2eNames {
+		e2eLine(nm, aSvcs, bSvcs)
+	}
+	e2eLine("/p.S1/M1", nil, bSvcs)           // only b lists it
+	e2eLine("/p.S1/M1", nil, nil)             // nobody
+	e2eLine("/q.T/M", []string{"q.T"}, bSvcs) // contested the other way: a claimed first
+	ne := 150
+	if tier == "thorough" {
+		ne = 3000
+	}
+	for i := 0; i < ne; i++ {
+		var nm string
+		switch r.Intn(3) {
+		case 0:
+			nm = common.Pick(r, []string{"", "/", "//"}) + common.Pick(r, append(append([]string{}, aSvcs...), bSvcs...)) +
+				common.Pick(r, []string{"/", "", "//", "/M/"}) + string(common.RandBytes(r, r.Intn(8), []byte("Mab/.%2F \xc3\xa9?#")))
+		case 1:
+			nm = string(common.RandBytes(r, r.Intn(14), []byte("/.pST12q%F_ ?")))
+		default: // any bytes an HTTP/2 header value may carry (no control bytes)
+			b := common.RandBytes(r, r.Intn(12), nil)
+			for j := range b {
+				if b[j] < 0x20 || b[j] == 0x7f {
+					b[j] = '/'
+				}
+			}
+			nm = string(b)
+		}
+		var as, bs []string
+		for _, x := range aSvcs {
+			if r.Intn(3) != 0 {
+				as = append(as, x)
+			}
+		}
+		for _, x := range bSvcs {
+			if r.Intn(3) != 0 {
+				bs = append(bs, x)
+			}
+		}
+		if r.Intn(4) == 0 {
+			if svc, _, ok := strings.Cut(strings.TrimPrefix(nm, "/"), "/"); ok {
+				bs = append(bs, svc) // b claims exactly the service the name spells
+			}
+		}
+		e2eLine(nm, as, bs)
 	}
 
 	g := func() []*string {
